@@ -106,18 +106,29 @@ def gen_abstract(rng, opts):
         keys.append({'key': name, 'kind': 'desc'})
     nfiles = rng.randrange(1, 5) if opts.get('dup', True) else \
         rng.randrange(1, 4)
+    # File names repeat across directories on purpose ('gas/extra.yaml',
+    # 'surf/extra.yaml'): two parents then write the very same include
+    # string for two different files.
     fnames = ['library.yaml']
-    dirs = ['', 'inc/', 'inc/deep/', 'more/']
-    for i in range(1, nfiles + 2):
-        fnames.append(rng.choice(dirs) + 'part%d.yaml' % i)
-    files = dict((f, {'include': [], 'entries': []}) for f in fnames)
-    # include tree (depth <= 3)
+    dirs = ['', 'gas/', 'surf/', 'gas/sub/']
+    bases = ['extra.yaml', 'index.yaml', 'data.yaml']
+    files = {'library.yaml': {'include': [], 'entries': []}}
     depth = {'library.yaml': 0}
-    for f in fnames[1:]:
-        cands = [p for p in depth if depth[p] < 3]
+    for i in range(1, nfiles + 2):
+        cands = [p for p in fnames if depth[p] < 3]
         parent = rng.choice(cands)
-        depth[f] = depth[parent] + 1
-        files[parent]['include'].append(f)
+        pdir = parent.rsplit('/', 1)[0] + '/' if '/' in parent else ''
+        for _ in range(20):
+            d = pdir if rng.random() < 0.4 else rng.choice(dirs)
+            name = d + rng.choice(bases)
+            if name not in files:
+                break
+        else:
+            name = pdir + 'part%d.yaml' % i
+        fnames.append(name)
+        files[name] = {'include': [], 'entries': []}
+        depth[name] = depth[parent] + 1
+        files[parent]['include'].append(name)
     strata = set()
     for kd in keys:
         placement = rng.choice(['inside', 'inside', 'below', 'at_low_end',
@@ -258,11 +269,31 @@ def gen_presentation(rng, aw, style=None):
         form = rng.choice(forms)
         units = E_UNITS if datum == 'H' else S_UNITS
         pres['data']['%s|%s' % (key, datum)] = {
-            'form': form, 'unit': rng.choice(sorted(units))}
+            'form': form, 'unit': rng.choice(sorted(units)),
+            'style': rng.choice(['plain', 'plain', 'plain', 'exp', 'quoted'])}
     return pres
 
 
-def render_value(si, kind, form, unit, block):
+def styled(num, style):
+    """Spell a number: plain decimal, exponent notation without a dot (a
+    YAML *string* for the YAML 1.1 resolver, still a number for the
+    loader), or quoted."""
+    txt = fmt(num)
+    if style == 'exp':
+        neg = txt.startswith('-')
+        body = txt.lstrip('-')
+        if '.' in body:
+            ip, fp = body.split('.')
+            digits = (ip + fp).lstrip('0') or '0'
+            txt = '%s%se-%d' % ('-' if neg else '', digits, len(fp))
+        else:
+            txt = '%s%se0' % ('-' if neg else '', body)
+    elif style == 'quoted':
+        txt = "'%s'" % txt
+    return txt
+
+
+def render_value(si, kind, form, unit, block, style='plain'):
     """-> (yaml key suffix 'nd'|'dim', text, model value in SI)."""
     units = E_UNITS if kind == 'H' else S_UNITS
     if form == 'bare':
@@ -270,9 +301,11 @@ def render_value(si, kind, form, unit, block):
             (block['molar entropy'] if kind == 'S'
              else block['molar heat capacity'])
         num = sig(si / units[u], 15)
-        return 'dim', fmt(num), num * units[u]
+        return 'dim', styled(num, style), num * units[u]
     num = sig(si / units[unit], 15)
-    return 'dim', '%s %s' % (fmt(num), unit), num * units[unit]
+    if style == 'quoted':
+        return 'dim', "'%s %s'" % (fmt(num), unit), num * units[unit]
+    return 'dim', '%s %s' % (styled(num, style), unit), num * units[unit]
 
 
 def render(aw, pres, scheme_dir='/sim/w'):
@@ -349,7 +382,8 @@ def render(aw, pres, scheme_dir='/sim/w'):
                         m[datum] = nd
                     else:
                         _, txt, si = render_value(e[datum], datum, p['form'],
-                                                  p['unit'], blk)
+                                                  p['unit'], blk,
+                                                  p.get('style', 'plain'))
                         lines.append('            %s_ref: %s' % (datum, txt))
                         m[datum] = si / (R_GAS * m['T_ref']) if datum == 'H' \
                             else si / R_GAS
@@ -367,7 +401,8 @@ def render(aw, pres, scheme_dir='/sim/w'):
                         else:
                             _, txt, si = render_value(e['Cp'][ts], 'Cp',
                                                       p['form'], p['unit'],
-                                                      blk)
+                                                      blk,
+                                                      p.get('style', 'plain'))
                             lines.append('                - [%s, %s]'
                                          % (ttxt, txt))
                             nd = si / R_GAS
